@@ -8,6 +8,8 @@ import (
 	"path/filepath"
 	"strings"
 	"testing"
+	"unicode"
+	"unicode/utf8"
 
 	"github.com/GuanceCloud/platypus/pkg/ast"
 	"github.com/GuanceCloud/platypus/pkg/engine/runtimev2"
@@ -54,9 +56,13 @@ func validName(n string) bool {
 	if n == "" {
 		return false
 	}
+	if !utf8.ValidString(n) {
+		return false
+	}
 	for i, r := range n {
-		letter := r == '_' || (r >= 'a' && r <= 'z') || (r >= 'A' && r <= 'Z')
-		digit := r >= '0' && r <= '9'
+		// a name is a letter or an underscore followed by letters, digits and underscores - of any script
+		letter := r == '_' || unicode.IsLetter(r)
+		digit := unicode.IsDigit(r)
 		if i == 0 && !letter {
 			return false
 		}
@@ -981,6 +987,39 @@ func TestSharedDeclarations(t *testing.T) {
 		}
 	}
 	evid.Exhaustive("prefix length x load order x call; list edited in place x call", n)
+}
+
+// TestParameterNames: names beyond ASCII: a letter or underscore of any script followed by letters, digits and
+// underscores is a name; anything else is not. A valid name binds by name.
+func TestParameterNames(t *testing.T) {
+	names := []string{"größe", "éa", "é", "tamaño", "a名前", "名前", "x_é", "n٣", "_x", "_", "_1", "Ωmega", "a\u0301b", "a˵", "a͵", "ab֪", "x⪪", "٣a", "a-b", "a b", "a.b", "1a", "é1", "a\u200bb", "\ufeffa", "a\U0001F600", "\U00010400a", "a\U00010400", "a\xffb", "\xffa"}
+	n := 0
+	for _, nm := range names {
+		for _, l := range [][]pdef{{{req, nm}}, {{req, "a"}, {opt, nm}}, {{req, nm}, {req, "b"}}, {{vari, nm}}} {
+			if !checkList(t, "names", l) {
+				n++
+				continue
+			}
+			n++
+			if !utf8.ValidString(nm) || gen.IsReserved(nm) || !gen.PlainIdent(nm) {
+				continue // cannot be written as a named argument
+			}
+			var call []arg
+			for i, p := range l {
+				if p.K == vari {
+					call = append(call, arg{Val: int64(10 + i)})
+				} else {
+					call = append(call, arg{Name: p.Name, Val: int64(10 + i)})
+				}
+			}
+			checkCall(t, "names", l, call)
+			if len(l) == 2 {
+				checkCall(t, "names", l, []arg{call[1], call[0]})
+			}
+			n++
+		}
+	}
+	evid.Exhaustive("parameter name over scripts and character categories x position in the list; bound by name", n)
 }
 
 func TestManyParameters(t *testing.T) {
